@@ -30,7 +30,7 @@ HAZARD_STATICS = {
 
 
 def _tlc_cases(tier: str, v: core.Verdict):
-    consts = {"quick": (4, 3), "thorough": (5, 4)}[tier]
+    consts = {"quick": (5, 3), "thorough": (6, 4)}[tier]
     cfg = core.scratch("c17") / "WorkflowEmit.cfg"
     txt = (SPEC / "WorkflowEmit.cfg").read_text()
     txt = txt.replace("MaxTasks = 4", f"MaxTasks = {consts[0]}").replace("MaxOps = 3", f"MaxOps = {consts[1]}")
@@ -179,6 +179,12 @@ def replay_case(arg):
                 if got_nodes != _seqlist(op["bnodes"]):
                     record["outcome"] = "node_order"
                     return ("violation", record, f"builder node order {got_nodes} != spec {op['bnodes']}", None)
+                # the builder's graph: exactly the declared tasks and edges (also when execution is then refused)
+                got_edges = sorted((_tid(a), _tid(b)) for a, b in wb._g.edges())
+                exp_edges = sorted((a, b) for a, b in case["edges"])
+                if got_edges != exp_edges or sorted(got_nodes) != sorted(case["nodes"]):
+                    record["outcome"] = "graph"
+                    return ("violation", record, f"builder tasks/edges {got_nodes} {got_edges} != declared {case['nodes']} {exp_edges}", None)
                 wf = Workflow(wb)
                 with tempfile.TemporaryDirectory(prefix="c17-") as tmp:
                     ctx = LocalDirectoryContext("ctx", tmp)
